@@ -61,7 +61,7 @@ CLAIMS = {
             "symbolic proof that the generated matrices satisfy R*R^T=I, det R=+1",
             "§3.12, §3.6, §4 C15"),
     "C16": ("forwarding (argument provenance) analysis",
-            "FWD over the extern \"C\" API and WorldBuilderWrapper: callee, identity argument forms in declared order, result "
+            "FWD over the extern \"C\" API and WorldBuilderWrapper: callee, identity argument forms in declared order (whole strings, value-preserving parameter types), result "
             "path, handle round trip, new/delete pairing; effect analysis of the wrappers (no state of their own); no try block "
             "(a refusal reaches the caller)",
             "§3.9, §4 C16"),
@@ -90,11 +90,14 @@ CLAIMS.update({
             "that consults geometry only) which with PURE entails that a non-covering feature has no influence, operation algebra and "
             "string mapping, R1 (every model honours its operation; new value independent of the painted value), per-kind model folds, "
             "FOLD.seed (painted values are only copied element-for-element or handed to models; known finding: z velocity seed of slab "
-            "and fault), TAG.unique (tags interned by full string equality)",
+            "and fault), FOLD.blend (the blend of two equal section values is that value, so a slab/fault without models of a kind hands the "
+            "painted value on; known finding: grain orientations pass through quat_cast/slerp/mat3_cast), unlisted compositions are cleared "
+            "on every path inside a replace model's range, TAG.unique (tags interned by full string equality)",
             "§3.4, §3.1, §3.6, §4 C02"),
     "C03": ("algebraic normal form of the initial blocks + key provenance + control dependence",
             "background blocks (adiabat Tp*exp(alpha*g*depth/cp), 0, zeros, -1, (0,0,0)), constants assigned only from the entry of their own "
-            "name, G1, forced surface temperature emitted under exactly its condition, never handed to features, independent of batching",
+            "name, G1, forced surface temperature emitted under exactly its condition, never handed to features, independent of batching; slab/fault thickness and "
+            "truncation interpolated between the current and the next section only (I1), slab and fault agree line by line (SIB.line)",
             "§3.6, §3.3, §3.4, §4 C03"),
     "C04": ("control-dependence + algebraic normal forms (plume bracket, shorter-arc angle, ellipse) + alias-wrapper shape",
             "closed depth intervals and polygon-test arguments in the extent tests, shape and exclusive use of the longitude-alias "
@@ -108,8 +111,9 @@ CLAIMS.update({
             "guard), N1 (sentinel overrides: tested variable = replaced variable, world's constant / adiabat, no dead override), closed "
             "forms of uniform/adiabatic/linear, cooling models, Gaussian plume (incl. shorter-arc angle interpolation and ellipse equation), smooth composition blend; local depth bounds used once "
             "defined (DEP.surfaces.local); distance and velocity of the cooling age from one ridge candidate; one source per physical parameter "
-            "inside a model (PARAM.source); Chapman geotherm T_top + (q/k) dz - (A/2k) dz^2 from the clipped top; the slab plate model as McKenzie's series (term and final expression). "
-            "Mass-conserving and tian2019 recipes are not decided",
+            "inside a model (PARAM.source); Chapman geotherm T_top + (q/k) dz - (A/2k) dz^2 from the clipped top; the slab plate model as McKenzie's series (term and final expression); the tian2019 polynomials as one coefficient table per "
+            "polynomial, each power used once (EXPR.poly). "
+            "The mass-conserving recipe and the tian2019 coefficient values are not decided",
             "§3.5, §3.6, §4 C05"),
     "C06": ("normalised membership relations + call-site agreement + sibling cross-check + symbolic evaluation of the segment step",
             "slab/fault membership predicates over (distance from plane, distance along plane), inclusive depth gate, agreement of the "
@@ -121,7 +125,7 @@ CLAIMS.update({
             "§3.5, §3.6, §3.9, §4 C06"),
     "C07": ("dependence-set analysis of culling bounds + structural coverage rules",
             "DEP: every depth cut-off / bounding box depends on all parameters the exact extent depends on (min depth, segment lengths "
-            "and thicknesses, coordinates, radius), spherical buffer factor > 1, both longitude buffers of the spherical box dominate b/cos(lat) at both "
+            "and thicknesses, coordinates, radius), the depth cut-off is >= min depth + L + T with derived fields resolved through parse_entries, spherical buffer factor > 1, both longitude buffers of the spherical box dominate b/cos(lat) at both "
             "trench ends (DEP.bbox-lon), max-accumulators cover all sections x segments x both "
             "components, depth-surface pairing (min<-minimum, max<-maximum, same side everywhere), full-scan fallback before "
             "Surface::local_value throws, who-may-call of alias-unaware implementations. Numeric sufficiency of the buffer near the poles "
